@@ -605,6 +605,9 @@ func c08GenProfile(r *Rng, strategy string) *profile.Profile {
 		p.SampleType = append(p.SampleType, &profile.ValueType{Type: "alloc_space", Unit: "bytes"})
 	}
 	nst := len(p.SampleType)
+	if r.Chance(25) {
+		p.TimeNanos, p.DurationNanos = 0, 0 // no collection time (as every legacy text format)
+	}
 	p.Mapping = []*profile.Mapping{
 		{ID: 1, Start: 0x400000, Limit: 0x500000, File: "/bin/prog", HasFunctions: true, HasFilenames: true, HasLineNumbers: true},
 		{ID: 2, Start: 0x7f0000, Limit: 0x800000, File: "/lib/libc.so.6", HasFunctions: true},
@@ -1274,7 +1277,7 @@ func c08ReplayCLI(c *Ctx, cs c08Case) {
 }
 
 func runC08(c *Ctx) {
-	c.Res.Rule = "(i) 7 node orders + EdgeMap.Sort + SortTags(flat|cum) on 8 shuffles of tie-rich element sets (weights from {±5,±3,7,0,±1,MinInt64,±MaxInt64}; equal names at different addresses/objects/lines; stream 'spaces' = strings with embedded spaces, kept apart): one order over all shuffles, equal to the model's sortBy(lessOf regenerated descriptors), renderings equal; non-trivial = at least two elements agree on the primary key magnitude or the printable name. (ii) generated valid tie-rich profiles (strategies pm-pairs, same-names, equal-flat-cum, positive, many-edges) × every CLI format (-top -tree -peek -dot -callgrind -tags -traces -raw -proto -topproto + option variants), k fresh processes each, stdout and exit code byte-compared; non-trivial = pprof exits 0 with non-empty output; in-process serialization twice / reparse-reserialize. (iii) local symbolization through the real symbolizer with a scripted ObjTool on unsymbolized profiles with 3-5 mappings (locations interleaved, some functions answered by several binaries, sometimes sparse pre-existing ids): 5 repetitions whose per-mapping SourceLine latency is permuted and GOMAXPROCS varied must serialize byte-identically, and ids/prof.Function order must equal the model's first-come numbering; non-trivial = at least 3 mappings need symbolization. (iv) web UI payloads (json of rpt.Stacks(), /top /flamegraph /peek /source /disasm /download) of generated profiles computed in 5 fresh processes each (the harness re-executed as C08child) and byte-compared; non-trivial = /top and /flamegraph answer 200 and the stack data is non-empty. (v) 8 goroutines serialising ONE label-rich profile concurrently (Write/WriteUncompressed/Copy), each result compared with a lone serialisation. (vi) parsing: generated legacy texts (heap v1/v2, growthz, contentionz, Go mutex, threadz, Go count) and bare memory maps (ParseProcMaps, ParseMemoryMap) whose maps use 2-5 substitution attributes with prefix-overlapping names, redefinitions and both map-line syntaxes, parsed 32 times in process and once in each fresh child: String() and WriteUncompressed identical; non-trivial = accepted by the parser. The web stream includes profiles with more matching functions/files (60-90) than the web UI limits (50) and a profile-scripted ObjTool so that /disasm and /source listings are produced."
+	c.Res.Rule = "(i) 7 node orders + EdgeMap.Sort + SortTags(flat|cum) on 8 shuffles of tie-rich element sets (weights from {±5,±3,7,0,±1,MinInt64,±MaxInt64}; equal names at different addresses/objects/lines; stream 'spaces' = strings with embedded spaces, kept apart): one order over all shuffles, equal to the model's sortBy(lessOf regenerated descriptors), renderings equal; non-trivial = at least two elements agree on the primary key magnitude or the printable name. (ii) generated valid tie-rich profiles (strategies pm-pairs, same-names, equal-flat-cum, positive, many-edges) × every CLI format (-top -tree -peek -dot -callgrind -tags -traces -raw -proto -topproto + option variants), k fresh processes each, stdout and exit code byte-compared; non-trivial = pprof exits 0 with non-empty output; in-process serialization twice / reparse-reserialize. (iii) local symbolization through the real symbolizer with a scripted ObjTool on unsymbolized profiles with 3-5 mappings (locations interleaved, some functions answered by several binaries, sometimes sparse pre-existing ids): 5 repetitions whose per-mapping SourceLine latency is permuted and GOMAXPROCS varied must serialize byte-identically, and ids/prof.Function order must equal the model's first-come numbering; non-trivial = at least 3 mappings need symbolization. (iv) web UI payloads (json of rpt.Stacks(), /top /flamegraph /peek /source /disasm /download) of generated profiles computed in 5 fresh processes each (the harness re-executed as C08child) and byte-compared; non-trivial = /top and /flamegraph answer 200 and the stack data is non-empty. (v) 8 goroutines serialising ONE label-rich profile concurrently (Write/WriteUncompressed/Copy), each result compared with a lone serialisation. (vi) parsing: generated legacy texts (heap v1/v2, growthz, contentionz, Go mutex, threadz, Go count) and bare memory maps (ParseProcMaps, ParseMemoryMap) whose maps use 2-5 substitution attributes with prefix-overlapping names, redefinitions and both map-line syntaxes, parsed 32 times in process and once in each fresh child: String() and WriteUncompressed identical; non-trivial = accepted by the parser. (vii) residual-edge graph shapes (mutual recursion, rotations, cycles of 2-4 hubs over helpers that -nodefraction/-nodecount drop): -dot in 16 fresh processes and 24 renders in process. (viii) time probe: Profile.Write and pprof -proto of a profile without collection time, repeated more than a second apart, byte-identical. The web stream includes profiles with more matching functions/files (60-90) than the web UI limits (50) and a profile-scripted ObjTool so that /disasm and /source listings are produced."
 	if c.Replay != "" {
 		var cs c08Case
 		if err := c.LoadReplay(&cs); err != nil {
@@ -1311,6 +1314,16 @@ func runC08(c *Ctx) {
 			}
 			cc.Rounds *= 4
 			c08Concurrent(c, cc)
+		case "dot-inprocess":
+			var sc c08ShapeCase
+			if err := c.LoadReplay(&sc); err != nil {
+				c.Res.HarnessError = err.Error()
+				return
+			}
+			sc.Reps = 200
+			c08DotInProcess(c, sc)
+		case "time-probe":
+			c08TimeProbeEnd(c, c08TimeProbeStart(c))
 		case "parse":
 			var pc c08ParseCase
 			if err := c.LoadReplay(&pc); err != nil {
@@ -1334,9 +1347,12 @@ func runC08(c *Ctx) {
 		return
 	}
 	r := NewRng(c.Seed)
+	tp := c08TimeProbeStart(c)
+	defer c08TimeProbeEnd(c, tp)
 	c08Sorts(c, r.Fork(), 300*c.Scale)
 	c08SymStream(c, r.Fork(), 40*c.Scale)
 	c08ConcStream(c, r.Fork(), 6*c.Scale)
+	c08ShapeStream(c, r.Fork(), 6*c.Scale, 16)
 	legacy := c08ParseStream(c, r.Fork(), 28*c.Scale)
 	c08WebStream(c, r.Fork(), 12*c.Scale, 5, legacy)
 	runs := 5
